@@ -30,6 +30,22 @@ func draw(t *rapid.T) sim.ChainCase {
 	g := sim.GenChain(t, sim.GenOpts{
 		Net:       sim.NetOpts{MaxForkHeight: rapid.SampledFrom([]int{6, 12, 25}).Draw(t, "forkSpan"), V2Only: rapid.IntRange(0, 3).Draw(t, "v2only") == 0},
 		MinBlocks: 8, MaxBlocks: 30, Reorgs: false, Profile: sim.Profile{Contracts: 2, MaxTxns: 5},
+		OnBlock: func(g *sim.Gen, b *sim.Builder) {
+			// the contract "as it currently stands" inside a block: a revision (possibly rotating a key) followed by
+			// another revision or a renewal of the same contract, each signed by the then-current keys
+			if rapid.IntRange(0, 4).Draw(g.T, "reviseScenario") == 0 {
+				if b.V1Revise() {
+					b.V1ReviseAgainInBlock()
+				}
+				if b.V2Revise() {
+					if rapid.Bool().Draw(g.T, "againOrRenew") {
+						b.V2ReviseAgainInBlock()
+					} else {
+						b.V2RenewRevisedInBlock()
+					}
+				}
+			}
+		},
 		BeforeApply: func(g *sim.Gen, honest types.Block, bs consensus.V1BlockSupplement) {
 			if len(honest.Transactions)+len(honest.V2Transactions()) > 0 && rapid.IntRange(0, 2).Draw(g.T, "probeHere") == 0 {
 				g.NewAdv(honest).AuthProbes(2)
